@@ -31,7 +31,7 @@ PROPS = {"C05": dict(
         rapid("ctlog", "internal/ctlog", "^TestVerifC05SQLite$", 150, 600),
         rapid("ctlog", "internal/ctlog", "^TestVerifC05DynamoDB$", 150, 600),
         rapid("ctlog", "internal/ctlog", "^TestVerifC05ETag$", 150, 600),
-        rapid("ctlog", "internal/ctlog", "^TestVerifC05Procs$", 25, 100),
+        rapid("ctlog", "internal/ctlog", "^TestVerifC05Procs$", 40, 100),
         _thorough_only(rapid("ctlog", "internal/ctlog", "^TestVerifC05(SQLite|DynamoDB|ETag)$", 0, 150, ts=4), race=True),
         _thorough_only(rapid("ctlog", "internal/ctlog", "^TestVerifC05Procs$", 0, 30, ts=2), race=True),
     ])}
